@@ -8,7 +8,10 @@
 EXTENDS ExpandDefs
 
 CONSTANTS Runs,      \* set of runs; a run is a sequence of pre-terminals; a pre-terminal a sequence of groups
-          MaxN       \* limits 1..MaxN are explored (and "no limit")
+          MaxN,      \* limits 1..MaxN are explored (and "no limit")
+          PassLimit  \* TRUE: the loop hands the remaining count down to create_guesses (pcfg_guesser;
+                     \* prince_ling after fix F6).  FALSE: lib_princeling/wordlist_generation.py before the
+                     \* fix - `while generated < size: generated += create_guesses(next())`
 
 VARIABLES R, N, ri, rlimit, out, pc
 vars == <<R, N, ri, rlimit, out, pc>>
@@ -17,7 +20,7 @@ Init == /\ R \in Runs /\ N \in (1..MaxN) \cup {NoLimit}
         /\ ri = 1 /\ rlimit = N /\ out = <<>> /\ pc = "loop"
 
 Step == /\ pc = "loop" /\ ri <= Len(R)
-        /\ LET r == CreateGuesses(R[ri], rlimit) IN
+        /\ LET r == CreateGuesses(R[ri], IF PassLimit THEN rlimit ELSE NoLimit) IN
              /\ out' = out \o r.lines
              /\ IF Truthy(rlimit)
                   THEN /\ rlimit' = rlimit - r.n
